@@ -7,11 +7,13 @@
 (* and compares.  Verdicts:                                                 *)
 (*   ok    value/error and effect order equal the reference evaluator's     *)
 (*   bad   they differ                                                      *)
+(*   known:<id>  they differ, and the difference is exactly that of a named   *)
+(*         known deviation (see below)                                       *)
 (*   skip  the reference semantics declines to define the outcome (undef),  *)
 (*         ran out of fuel, or the real run exhausted its step budget while *)
 (*         the reference run was long too                                   *)
 (***************************************************************************)
-EXTENDS ZSem, Json, IOUtils
+EXTENDS ZSem, Json, IOUtils, SequencesExt
 
 (* parse the trace file once (TLC would otherwise re-evaluate the operator) *)
 ASSUME TLCSet(11, ndJsonDeserialize(IOEnv.VERIF_TRACE))
@@ -21,9 +23,17 @@ Fuel == 4000
 VARIABLES ci, verdict
 tvars == <<ci, verdict>>
 
-Judge(c) ==
-    LET r == RunProgram(c.prog, Fuel, IF "failAt" \in DOMAIN c THEN c.failAt ELSE 0)
-        fxOk == ObsFx(r.s.fx) = c.fx
+(* Named deviations: known open findings of the implementation that ZSem can reproduce (ZSem's    *)
+(* state field devs).  A case the reference semantics rejects is evaluated once more with the     *)
+(* deviations listed in the environment variable VERIF_DEVS; when that evaluation explains the    *)
+(* recorded run AND one of the deviations made a difference in it, the verdict is "known:<id>".   *)
+AllDevs == {"jump-in-argument"}
+DevStr == IF "VERIF_DEVS" \in DOMAIN IOEnv THEN IOEnv.VERIF_DEVS ELSE ""
+HasDev(d) == ReplaceFirstSubSeq("", d, DevStr) # DevStr
+TraceDevs == {d \in AllDevs : HasDev(d)}
+
+Compare(c, r) ==
+    LET fxOk == ObsFx(r.s.fx) = c.fx
     IN CASE r.k \in {"undef", "oof"} -> <<"skip", r.k>>
          [] c.out[1] = "budget" -> IF r.s.fuel > Fuel - 1500 THEN <<"bad", "budget">> ELSE <<"skip", "budget">>
          [] r.k = "val" -> IF c.out[1] = "val" /\ c.out[2] = ObsR(r) /\ fxOk THEN <<"ok", "val">>
@@ -31,6 +41,16 @@ Judge(c) ==
          [] r.k = "err" -> IF c.out[1] = "err" /\ fxOk THEN <<"ok", "err">>
                            ELSE <<"bad", IF c.out[1] # "err" THEN "kind" ELSE "effects">>
          [] OTHER -> <<"bad", "result-kind">>
+
+Judge(c) ==
+    LET failAt == IF "failAt" \in DOMAIN c THEN c.failAt ELSE 0
+        j == Compare(c, RunProgram(c.prog, Fuel, failAt))
+    IN IF j[1] # "bad" \/ TraceDevs = {} THEN j
+       ELSE LET r2 == RunProgramD(c.prog, Fuel, failAt, TraceDevs)
+                j2 == Compare(c, r2)
+            IN IF j2[1] = "ok" /\ r2.s.used # {}
+               THEN <<"known:" \o (CHOOSE d \in r2.s.used : TRUE), j2[2]>>
+               ELSE j
 
 TInit == ci \in 1..Len(Cases) /\ verdict = "run"
 TStep == /\ verdict = "run"
